@@ -785,6 +785,19 @@ class PureInterp:
                 raise Raised("AttributeError", n.attr)
         if isinstance(o, FuncRef):
             return FuncRef(o.name + "." + n.attr)
+        if isinstance(o, ClassInfo):
+            mth = self.index.method(o, n.attr)
+            if mth is not None:
+                decos = mth.decorator_names()
+                return ("bound", mth, o) if "classmethod" in decos else mth
+            cv = self._class_attr(o, n.attr)
+            if cv is not Ellipsis:
+                return cv
+            raise Raised("AttributeError", n.attr)
+        if callable(o) and not isinstance(o, (Obj, ClassInfo, FuncInfo, FuncRef)) and n.attr in ("__name__", "__qualname__", "__doc__"):
+            return getattr(o, n.attr, None)
+        if isinstance(o, FuncInfo) and n.attr in ("__name__", "__qualname__"):
+            return o.name
         if isinstance(o, ChainMap) and n.attr == "maps":
             return o.maps
         if ("getattr:" + n.attr) in self.hooks:
@@ -1090,7 +1103,9 @@ class PureInterp:
                 if b in ("list", "tuple", "set", "frozenset", "sorted", "sum", "any", "all", "max", "min", "enumerate", "dict", "len", "reversed") and args and isinstance(args[0], Obj):
                     args = [self._iterable(args[0]) if b != "len" else (self._as_sequence(args[0]) or args[0])] + list(args[1:])
                 if b == "callable":
-                    return isinstance(args[0], (FuncInfo, FuncRef)) or (isinstance(args[0], tuple) and args[0] and args[0][0] in ("lambda", "bound"))
+                    a0 = args[0]
+                    return isinstance(a0, (FuncInfo, FuncRef, ClassInfo)) or (isinstance(a0, tuple) and bool(a0) and a0[0] in ("lambda", "bound", "closure", "partial", "memo", "hookattr")) \
+                        or (callable(a0) and not isinstance(a0, Obj)) or (isinstance(a0, Obj) and self._dunder(a0, "__call__") is not None)
                 if b == "getattr":
                     o, nm = args[0], args[1]
                     try:
@@ -1247,8 +1262,20 @@ class PureInterp:
                     except Exception:
                         continue
             return False
+        import builtins as _b, collections.abc as _abc, os as _os
         for x in names:
             nm = x.name if isinstance(x, FuncRef) else getattr(x, "name", str(x))
+            real = None
+            if nm.startswith("builtins."):
+                real = getattr(_b, nm.split(".", 1)[1], None)
+            elif nm.startswith("collections.abc.") or nm.startswith("typing."):
+                real = getattr(_abc, nm.rsplit(".", 1)[1], None)
+            elif nm in ("os.PathLike",):
+                real = _os.PathLike
+            if isinstance(real, type) and not isinstance(v, (Obj, EnumVal)):
+                if isinstance(v, real):
+                    return True
+                continue
             if nm.endswith("str") and isinstance(v, str):
                 return True
             if nm.endswith("Mapping") and isinstance(v, _abc_Mapping):
